@@ -319,3 +319,227 @@ example : TrConverted "c/z" [1, 2, 3] (⟨⟨5, -1, 2⟩, ⟨⟨0, 1, 0⟩, ⟨0
   transformed_card transcOK_real _ (by constructor <;> norm_num [V3.dot]) (TrAdmissible.c_z 1 2 3)
 
 end T4V.C04
+
+/-! ### TR cards: one row and one column given (five entries, Euler angles) -/
+
+namespace T4V.C04
+open T4V T4V.Surf T4V.Macro T4V.Tr
+variable {α : Type} [Field α] [LinearOrder α] [IsStrictOrderedRing α] [Transc α]
+
+/-- the Euler-angle matrix of `normalize_matrix5` is a proper rotation -/
+theorem euler_rot (cA sA cB sB cG sG : α) (hA : cA * cA + sA * sA = 1) (hB : cB * cB + sB * sB = 1)
+    (hG : cG * cG + sG * sG = 1) :
+    Rot ⟨⟨cB, -cG * sB, sG * sB⟩, ⟨cA * sB, cA * cB * cG - sA * sG, -cG * sA - cA * cB * sG⟩,
+         ⟨sA * sB, cA * sG + cB * cG * sA, cA * cG - cB * sA * sG⟩⟩ ∧
+    det3 ⟨⟨cB, -cG * sB, sG * sB⟩, ⟨cA * sB, cA * cB * cG - sA * sG, -cG * sA - cA * cB * sG⟩,
+         ⟨sA * sB, cA * sG + cB * cG * sA, cA * cG - cB * sA * sG⟩⟩ = 1 := by
+  refine ⟨Rot.of_rows _ ?_ ?_ ?_ ?_ ?_ ?_, ?_⟩ <;> simp only [V3.dot, det3, V3.cross]
+  · linear_combination hB + (sB ^ 2) * hG
+  · linear_combination (cB^2*cG^2 + cB^2*sG^2 + sB^2) * hA + (-cG^2*sA^2 + cG^2 - sA^2*sG^2 + sG^2) * hB +
+      (sA^2*sB^2 - sB^2 + 1) * hG
+  · linear_combination (cG^2 + sG^2) * hA + (cG^2*sA^2 + sA^2*sG^2) * hB + (-sA^2*sB^2 + 1) * hG
+  · linear_combination (-cA*cB*sB) * hG
+  · linear_combination (-cB*sA*sB) * hG
+  · linear_combination (cA*cG^2*sA + cA*sA*sG^2) * hB + (-cA*sA*sB^2) * hG
+  · linear_combination (cB^2*cG^2 + cB^2*sG^2 + cG^2*sB^2 + sB^2*sG^2) * hA + (cG^2 + sG^2) * hB + hG
+end T4V.C04
+namespace T4V.C04
+open T4V T4V.Surf T4V.Macro T4V.Tr
+variable {α : Type} [Field α] [LinearOrder α] [IsStrictOrderedRing α] [Transc α]
+
+def flat9 (m : M3 α) : List (Option α) :=
+  [some m.r1.x, some m.r1.y, some m.r1.z, some m.r2.x, some m.r2.y, some m.r2.z, some m.r3.x, some m.r3.y, some m.r3.z]
+
+end T4V.C04
+namespace T4V.C04
+open T4V T4V.Surf T4V.Macro T4V.Tr
+variable {α : Type} [Field α] [LinearOrder α] [IsStrictOrderedRing α] [Transc α]
+
+/-- `np.roll(…, shift=1, axis=0)` and `np.roll(…, shift=1, axis=1)`: cyclic shift of the rows down / of the columns
+to the right -/
+def rowRoll (m : M3 α) : M3 α := ⟨m.r3, m.r1, m.r2⟩
+def colRoll (m : M3 α) : M3 α := ⟨⟨m.r1.z, m.r1.x, m.r1.y⟩, ⟨m.r2.z, m.r2.x, m.r2.y⟩, ⟨m.r3.z, m.r3.x, m.r3.y⟩⟩
+def rollCols (m : M3 α) : Nat → M3 α
+  | 0 => m
+  | 1 => colRoll m
+  | _ => colRoll (colRoll m)
+def rollM (m : M3 α) (i j : Nat) : M3 α :=
+  match i with
+  | 0 => rollCols m j
+  | 1 => rowRoll (rollCols m j)
+  | _ => rowRoll (rowRoll (rollCols m j))
+
+theorem rowRoll_rot (m : M3 α) (h : Rot m ∧ det3 m = 1) : Rot (rowRoll m) ∧ det3 (rowRoll m) = 1 := by
+  obtain ⟨⟨r11, r22, r33, r12, r13, r23, c11, c22, c33, c12, c13, c23⟩, hd⟩ := h
+  refine ⟨Rot.of_rows _ ?_ ?_ ?_ ?_ ?_ ?_, ?_⟩ <;> simp only [rowRoll, V3.dot, det3, V3.cross] at * <;>
+      first | linear_combination r11 | linear_combination r22 | linear_combination r33 | linear_combination r12
+            | linear_combination r13 | linear_combination r23 | linear_combination hd
+
+theorem colRoll_rot (m : M3 α) (h : Rot m ∧ det3 m = 1) : Rot (colRoll m) ∧ det3 (colRoll m) = 1 := by
+  obtain ⟨⟨r11, r22, r33, r12, r13, r23, c11, c22, c33, c12, c13, c23⟩, hd⟩ := h
+  refine ⟨Rot.of_rows _ ?_ ?_ ?_ ?_ ?_ ?_, ?_⟩ <;> simp only [colRoll, V3.dot, det3, V3.cross] at * <;>
+      first | linear_combination r11 | linear_combination r22 | linear_combination r33 | linear_combination r12
+            | linear_combination r13 | linear_combination r23 | linear_combination hd
+
+/-- a cyclic shift of the rows and of the columns of a proper rotation is a proper rotation -/
+theorem roll_rot (m : M3 α) (h : Rot m ∧ det3 m = 1) (i j : Nat) : Rot (rollM m i j) ∧ det3 (rollM m i j) = 1 := by
+  have hc : Rot (rollCols m j) ∧ det3 (rollCols m j) = 1 := by
+    rcases j with _ | _ | j
+    · exact h
+    · exact colRoll_rot _ h
+    · exact colRoll_rot _ (colRoll_rot _ h)
+  rcases i with _ | _ | i
+  · exact hc
+  · exact rowRoll_rot _ hc
+  · exact rowRoll_rot _ (rowRoll_rot _ hc)
+end T4V.C04
+namespace T4V.C04
+open T4V T4V.Surf T4V.Macro T4V.Tr
+variable {α : Type} [Field α] [LinearOrder α] [IsStrictOrderedRing α] [Transc α]
+
+def flatO (m : M3 (Option α)) : List (Option α) :=
+  [m.r1.x, m.r1.y, m.r1.z, m.r2.x, m.r2.y, m.r2.z, m.r3.x, m.r3.y, m.r3.z]
+
+/-- the five supplied entries (a full row `rx ry rz`, the rest `cy cz` of a full column), with the row in position
+`i` and the column in position `j` -/
+def pattern5 (rx ry rz cy cz : α) (i j : Nat) : List (Option α) :=
+  flatO (rollM ⟨⟨some rx, some ry, some rz⟩, ⟨some cy, none, none⟩, ⟨some cz, none, none⟩⟩ i j)
+
+def euler5 (rx ry rz cy cz : α) : M3 α :=
+  let s := Transc.sqrt (ry * ry + rz * rz)
+  let t : α × α × α × α := if s == 0 then (1, 0, 1, 0) else (-ry / s, rz / s, cy / s, cz / s)
+  ⟨⟨rx, ry, rz⟩, ⟨cy, t.2.2.1 * rx * t.1 - t.2.2.2 * t.2.1, -t.1 * t.2.2.2 - t.2.2.1 * rx * t.2.1⟩,
+   ⟨cz, t.2.2.1 * t.2.1 + rx * t.1 * t.2.2.2, t.2.2.1 * t.1 - rx * t.2.2.2 * t.2.1⟩⟩
+
+theorem normMatrix5_eval_00 (rx ry rz cy cz : α) :
+    normMatrix (pattern5 rx ry rz cy cz 0 0) = .ok (flat9 (rollM (euler5 rx ry rz cy cz) 0 0)) := by
+  simp [pattern5, flatO, rollM, rollCols, rowRoll, colRoll, euler5, normMatrix, normMatrix5, rows3, transpose9, v3?, rotL,
+    flat9, List.replicate, isRowwise]
+
+theorem normMatrix5_eval_01 (rx ry rz cy cz : α) :
+    normMatrix (pattern5 rx ry rz cy cz 0 1) = .ok (flat9 (rollM (euler5 rx ry rz cy cz) 0 1)) := by
+  simp [pattern5, flatO, rollM, rollCols, rowRoll, colRoll, euler5, normMatrix, normMatrix5, rows3, transpose9, v3?, rotL,
+    flat9, List.replicate, isRowwise]
+
+theorem normMatrix5_eval_02 (rx ry rz cy cz : α) :
+    normMatrix (pattern5 rx ry rz cy cz 0 2) = .ok (flat9 (rollM (euler5 rx ry rz cy cz) 0 2)) := by
+  simp [pattern5, flatO, rollM, rollCols, rowRoll, colRoll, euler5, normMatrix, normMatrix5, rows3, transpose9, v3?, rotL,
+    flat9, List.replicate, isRowwise]
+
+theorem normMatrix5_eval_10 (rx ry rz cy cz : α) :
+    normMatrix (pattern5 rx ry rz cy cz 1 0) = .ok (flat9 (rollM (euler5 rx ry rz cy cz) 1 0)) := by
+  simp [pattern5, flatO, rollM, rollCols, rowRoll, colRoll, euler5, normMatrix, normMatrix5, rows3, transpose9, v3?, rotL,
+    flat9, List.replicate, isRowwise]
+
+theorem normMatrix5_eval_11 (rx ry rz cy cz : α) :
+    normMatrix (pattern5 rx ry rz cy cz 1 1) = .ok (flat9 (rollM (euler5 rx ry rz cy cz) 1 1)) := by
+  simp [pattern5, flatO, rollM, rollCols, rowRoll, colRoll, euler5, normMatrix, normMatrix5, rows3, transpose9, v3?, rotL,
+    flat9, List.replicate, isRowwise]
+
+theorem normMatrix5_eval_12 (rx ry rz cy cz : α) :
+    normMatrix (pattern5 rx ry rz cy cz 1 2) = .ok (flat9 (rollM (euler5 rx ry rz cy cz) 1 2)) := by
+  simp [pattern5, flatO, rollM, rollCols, rowRoll, colRoll, euler5, normMatrix, normMatrix5, rows3, transpose9, v3?, rotL,
+    flat9, List.replicate, isRowwise]
+
+theorem normMatrix5_eval_20 (rx ry rz cy cz : α) :
+    normMatrix (pattern5 rx ry rz cy cz 2 0) = .ok (flat9 (rollM (euler5 rx ry rz cy cz) 2 0)) := by
+  simp [pattern5, flatO, rollM, rollCols, rowRoll, colRoll, euler5, normMatrix, normMatrix5, rows3, transpose9, v3?, rotL,
+    flat9, List.replicate, isRowwise]
+
+theorem normMatrix5_eval_21 (rx ry rz cy cz : α) :
+    normMatrix (pattern5 rx ry rz cy cz 2 1) = .ok (flat9 (rollM (euler5 rx ry rz cy cz) 2 1)) := by
+  simp [pattern5, flatO, rollM, rollCols, rowRoll, colRoll, euler5, normMatrix, normMatrix5, rows3, transpose9, v3?, rotL,
+    flat9, List.replicate, isRowwise]
+
+theorem normMatrix5_eval_22 (rx ry rz cy cz : α) :
+    normMatrix (pattern5 rx ry rz cy cz 2 2) = .ok (flat9 (rollM (euler5 rx ry rz cy cz) 2 2)) := by
+  simp [pattern5, flatO, rollM, rollCols, rowRoll, colRoll, euler5, normMatrix, normMatrix5, rows3, transpose9, v3?, rotL,
+    flat9, List.replicate, isRowwise]
+
+theorem normMatrix5_eval_any (rx ry rz cy cz : α) (i j : Nat)
+    (hi : i < 3) (hj : j < 3) :
+    normMatrix (pattern5 rx ry rz cy cz i j) = .ok (flat9 (rollM (euler5 rx ry rz cy cz) i j)) := by
+  have hi' : i = 0 ∨ i = 1 ∨ i = 2 := by omega
+  have hj' : j = 0 ∨ j = 1 ∨ j = 2 := by omega
+  rcases hi' with rfl | rfl | rfl <;> rcases hj' with rfl | rfl | rfl
+  · exact normMatrix5_eval_00 rx ry rz cy cz
+  · exact normMatrix5_eval_01 rx ry rz cy cz
+  · exact normMatrix5_eval_02 rx ry rz cy cz
+  · exact normMatrix5_eval_10 rx ry rz cy cz
+  · exact normMatrix5_eval_11 rx ry rz cy cz
+  · exact normMatrix5_eval_12 rx ry rz cy cz
+  · exact normMatrix5_eval_20 rx ry rz cy cz
+  · exact normMatrix5_eval_21 rx ry rz cy cz
+  · exact normMatrix5_eval_22 rx ry rz cy cz
+end T4V.C04
+namespace T4V.C04
+open T4V T4V.Surf T4V.Macro T4V.Tr
+variable {α : Type} [Field α] [LinearOrder α] [IsStrictOrderedRing α] [Transc α]
+
+/-- every supplied entry (`some`) of the card is found at its place in the completed matrix -/
+def Agrees : List (Option α) → List (Option α) → Prop
+  | [], [] => True
+  | p :: ps, q :: qs => (p = none ∨ p = q) ∧ Agrees ps qs
+  | _, _ => False
+
+theorem sq_sum_zero (a b : α) (h : a * a + b * b = 0) : a = 0 ∧ b = 0 := by
+  have ha := mul_self_nonneg a; have hb := mul_self_nonneg b
+  exact ⟨mul_self_eq_zero.mp (by linarith), mul_self_eq_zero.mp (by linarith)⟩
+
+/-- the completed matrix is a proper rotation, also in the degenerate case `sin β = 0` (the row is `(±1, 0, 0)`) -/
+theorem euler5_rot (ok : TranscOK α) (r c : V3 α) (hx : c.x = r.x) (hr : r.dot r = 1) (hc : c.dot c = 1) :
+    Rot (euler5 r.x r.y r.z c.y c.z) ∧ det3 (euler5 r.x r.y r.z c.y c.z) = 1 := by
+  obtain ⟨rx, ry, rz⟩ := r
+  obtain ⟨cx, cy, cz⟩ := c
+  simp only at hx
+  subst hx
+  simp only [V3.dot] at hr hc
+  have hnn : 0 ≤ ry * ry + rz * rz := add_nonneg (mul_self_nonneg _) (mul_self_nonneg _)
+  rcases hnn.lt_or_eq with hs | hs
+  · have hsp := ok.sqrt_pos _ hs
+    have hs2 := ok.sqrt_sq _ hs.le
+    have hne : (Transc.sqrt (ry * ry + rz * rz) == 0) = false := by simpa using hsp.ne'
+    simp only [euler5, hne, Bool.false_eq_true, if_false]
+    generalize Transc.sqrt (ry * ry + rz * rz) = s at *
+    have hs0 := hsp.ne'
+    have hB : cx * cx + s * s = 1 := by rw [hs2]; linear_combination hr
+    have hG : (-ry / s) * (-ry / s) + (rz / s) * (rz / s) = 1 := by field_simp; linear_combination (-1 : α) * hs2
+    have hA : (cy / s) * (cy / s) + (cz / s) * (cz / s) = 1 := by field_simp; linear_combination hc - hB
+    obtain ⟨hR, hdet⟩ := euler_rot (cy / s) (cz / s) cx s (-ry / s) (rz / s) hA hB hG
+    have e1 : -(-ry / s) * s = ry := by field_simp
+    have e2 : rz / s * s = rz := by field_simp
+    have e3 : cy / s * s = cy := by field_simp
+    have e4 : cz / s * s = cz := by field_simp
+    rw [e1, e2, e3, e4] at hR hdet
+    exact ⟨hR, hdet⟩
+  · obtain ⟨hy, hz⟩ := sq_sum_zero ry rz hs.symm
+    subst hy hz
+    have hxx : cx * cx = 1 := by linear_combination hr
+    obtain ⟨hcy, hcz⟩ := sq_sum_zero cy cz (by linear_combination hc - hxx)
+    subst hcy hcz
+    have h00 : Transc.sqrt ((0:α) * 0 + 0 * 0) = 0 := by
+      have := ok.sqrt_sq ((0:α) * 0 + 0 * 0) (by simp)
+      simpa using this
+    have hne : (Transc.sqrt ((0:α) * 0 + 0 * 0) == 0) = true := by simpa using h00
+    simp only [euler5, hne, if_true]
+    refine ⟨Rot.of_rows _ ?_ ?_ ?_ ?_ ?_ ?_, ?_⟩ <;> simp [V3.dot, det3, V3.cross, hxx]
+
+/-- **one row and one column given, in any of the nine positions** (five entries: the Euler-angle form): the card is
+completed to a proper rotation that reproduces every supplied entry -/
+theorem row_column_completed (ok : TranscOK α) (r c : V3 α) (hx : c.x = r.x) (hr : r.dot r = 1) (hc : c.dot c = 1)
+    (i j : Nat) (hi : i < 3) (hj : j < 3) :
+    ∃ m : M3 α, normMatrix (pattern5 r.x r.y r.z c.y c.z i j) = .ok (flat9 m) ∧ Rot m ∧ det3 m = 1 ∧
+      Agrees (pattern5 r.x r.y r.z c.y c.z i j) (flat9 m) := by
+  obtain ⟨hR', hdet'⟩ := roll_rot _ (euler5_rot ok r c hx hr hc) i j
+  refine ⟨_, normMatrix5_eval_any r.x r.y r.z c.y c.z i j hi hj, hR', hdet', ?_⟩
+  have hi' : i = 0 ∨ i = 1 ∨ i = 2 := by omega
+  have hj' : j = 0 ∨ j = 1 ∨ j = 2 := by omega
+  rcases hi' with rfl | rfl | rfl <;> rcases hj' with rfl | rfl | rfl <;>
+    simp [Agrees, pattern5, flatO, flat9, rollM, rollCols, rowRoll, colRoll, euler5]
+
+/-- non-vacuity over ℝ: second row and third column given -/
+example : ∃ m : M3 ℝ, normMatrix (pattern5 (0:ℝ) 1 0 0 1 1 2) = .ok (flat9 m) ∧ Rot m ∧ det3 m = 1 ∧
+    Agrees (pattern5 (0:ℝ) 1 0 0 1 1 2) (flat9 m) :=
+  row_column_completed transcOK_real ⟨0, 1, 0⟩ ⟨0, 0, 1⟩ rfl (by norm_num [V3.dot]) (by norm_num [V3.dot]) 1 2
+    (by norm_num) (by norm_num)
+end T4V.C04
